@@ -336,7 +336,7 @@ def one_run(ctx, sc, idx, keep_lf=False):
     sites = n2.shank_map(sc["map"], sc["n"], rng, sc["nshank"]) if kind == "NP2.4" else None
     binf, d, info = n2.make_recording(root, sc["ns"], rng, kind=kind, n=sc["n"], sites=sites, gainset=tuple(sc["gain"]),
                                       content=sc.get("content", "random"), label=sc.get("label", "probe00"),
-                                      encoding=sc.get("encoding"), ptype=sc.get("ptype"))
+                                      encoding=sc.get("encoding"), ptype=sc.get("ptype"), fname=sc.get("fname"))
     info["meta_text"] = Path(binf).with_suffix(".meta").read_text()
     rc_early = None
     if any(sc.get(k) for k in VARIANT_KEYS):
@@ -418,7 +418,7 @@ FEATURES = [("input", "cbin"), ("encoding", "geom"), ("ptype", 2013), ("w_type",
             ("w_type", "default"), ("nsamples", True), ("extra", "_x1"), ("nshank_pick", "last"), ("nshank_pick", "ends"),
             ("compress", True), ("post_check", True), ("recon_compress", True), ("recon_obj", "early"), ("recon_obj", "twice"), ("recon_obj", "failed_then"),
             ("extras_in_shank", True), ("sibling", True), ("pre", "stale_force"), ("pre", "decline_force"), ("label", "probe01"),
-            ("path_type", "str"), ("map", "only"), ("w", 588), ("w", 600), ("w", 1152)]
+            ("path_type", "str"), ("map", "only"), ("fname", "rec_g0_t0_imec0_ap"), ("fname", "snap_g0_t1.imec1.ap"), ("w", 588), ("w", 600), ("w", 1152)]
 
 
 def variants(ctx, seed):
